@@ -97,6 +97,26 @@ fn hosts() -> Vec<Host> {
             },
             applies: |_| true,
         },
+        // fancy hosts in which E is delegated together with a non-literal neighbour
+        Host {
+            name: "(?<!-)[ab]E",
+            build: |e| format!("(?<!-)[ab]{}", e),
+            expect: |t, s| {
+                for (p, c) in t.char_indices() {
+                    if (c == 'a' || c == 'b') && t[p + 1..].starts_with(s) && !t[..p].ends_with('-') {
+                        return Some(vec![Some((p, p + 1 + s.len()))]);
+                    }
+                }
+                None
+            },
+            applies: |_| true,
+        },
+        Host {
+            name: "E\\d?(?=)",
+            build: |e| format!("{}\\d?(?=)", e),
+            expect: |t, s| occ(t, s, 0).map(|p| vec![Some((p, p + s.len() + if t[p + s.len()..].starts_with(|c: char| c.is_ascii_digit()) { 1 } else { 0 }))]),
+            applies: |_| true,
+        },
         Host { name: "(?x:E)", build: |e| format!("(?x:{})", e), expect: |t, s| occ(t, s, 0).map(|p| vec![Some((p, p + s.len()))]), applies: |s| !s.chars().any(|c| c.is_whitespace()) },
         Host { name: "(?i:E)x?", build: |e| format!("(?i:{})x?", e), expect: |t, s| occ(t, s, 0).map(|p| vec![Some((p, p + s.len() + if t[p + s.len()..].starts_with('x') { 1 } else { 0 }))]), applies: |s| !s.chars().any(|c| c.is_alphabetic()) },
     ]
@@ -122,7 +142,7 @@ fn check_string(s: &str, hs: &[Host], acc: &mut Acc) {
         acc.violate(Violation::new("C17", "borrow", s, "", 0, "escape", format!("{:?}", s), format!("{:?}", e)));
     }
     let mut texts: Vec<String> = vec![s.to_string(), format!("{}{}", s, s), alter(s), format!("{}{}", alter(s), s)];
-    for (u, v) in [("a", ""), ("é", "c"), ("\n", "x"), ("ab", "é"), ("-", "-")] {
+    for (u, v) in [("a", ""), ("é", "c"), ("\n", "x"), ("ab", "é"), ("-", "-"), ("-a", "1"), ("b", "7x")] {
         texts.push(format!("{}{}{}", u, s, v));
         texts.push(format!("{}{}{}{}", u, s, s, v));
     }
@@ -198,7 +218,7 @@ pub fn run(ctx: &Ctx) -> Outcome {
     let mut out = Outcome::new(acc);
     out.distinct_nontrivial = out.acc.distinct;
     out.exhaustive = true;
-    out.rule = format!("all strings of length <= {} over {} symbols (every ASCII punctuation character incl. all regex meta-characters, a b 1 space newline é € 😀) plus {} seeded random strings of length 3-10; for each s: Cow::Borrowed iff s contains none of \\.+*?()|[]{{}}^$# ; Regex::new(host(escape(s))) compiles for {} hosts (E, (?:E), (E)\\1, (?=E)E, [ab]*E, (?<=E), (?>E)c?, (?:E){{2}}, (?!E)., (?x:E) for whitespace-free s, (?i:E)x? for letter-free s) and on texts u+s+v, s+s, s with its last character altered the captures equal what plain string search predicts. Non-trivial: distinct strings containing a meta-character.", maxlen, SYMS.len(), n_random, hs_count);
+    out.rule = format!("all strings of length <= {} over {} symbols (every ASCII punctuation character incl. all regex meta-characters, a b 1 space newline é € 😀) plus {} seeded random strings of length 3-10; for each s: Cow::Borrowed iff s contains none of \\.+*?()|[]{{}}^$# ; Regex::new(host(escape(s))) compiles for {} hosts (E, (?:E), (E)\\1, (?=E)E, [ab]*E, (?<=E), (?>E)c?, (?:E){{2}}, (?!E)., (?<!-)[ab]E, E\\d?(?=), (?x:E) for whitespace-free s, (?i:E)x? for letter-free s) and on texts u+s+v, s+s, s with its last character altered the captures equal what plain string search predicts. Non-trivial: distinct strings containing a meta-character.", maxlen, SYMS.len(), n_random, hs_count);
     out.assumptions = vec!["'needs escaping' is the set \\.+*?()|[]{}^$# (regex meta-characters plus the comment character #)".into()];
     out
 }
